@@ -69,6 +69,22 @@ def make_inputs(seed, n_family, n_mut, n_raw, with_android=True, size=1.0, featu
         cases.append(dict(id='b%d' % i, path='bom/B%d.java' % i, data=b'\xef\xbb\xbf' + src, origin='mutant'))
     if n_mut:
         cases.append(dict(id='b_one', path='bom/One.java', data=b'\xef\xbb\xbfclass One { int f() { return 1 + 2; } }', origin='mutant'))
+    # what other tools leave in a *.java file: UTF-16 / UTF-32 text with its byte-order mark (whole, cut short by
+    # one byte, the mark alone, the mark and one byte), and the leading bytes of other file formats in front of text
+    if n_mut:
+        one = 'class W { int f() { return 1 + 2; } }\n'
+        srcs = [one] + [f.decode('utf-8', 'replace') for f in fam[:max(1, n_mut // 200)]]
+        k = 0
+        for txt in srcs:
+            for mark, enc in ((b'\xff\xfe', 'utf-16-le'), (b'\xfe\xff', 'utf-16-be'), (b'\xff\xfe\x00\x00', 'utf-32-le'), (b'\x00\x00\xfe\xff', 'utf-32-be')):
+                body = txt.encode(enc, 'replace')
+                for v in (mark + body, mark + body[:-1], mark + body + b'\n', mark + txt.encode('utf-8', 'replace')):
+                    cases.append(dict(id='w%d' % k, path='wide/W%d.java' % k, data=v, origin='mutant'))
+                    k += 1
+        for mark in (b'\xff\xfe', b'\xfe\xff', b'\xff', b'\xfe', b'\xef\xbb', b'\xef\xbb\xbf', b'\x00', b'\x1f\x8b\x08', b'PK\x03\x04', b'\xca\xfe\xba\xbe', b'\x7fELF', b'#!/bin/sh\n', b'%PDF-'):
+            for tail in (b'', b'\n', b'c', b'\x00', b'class M { }'):
+                cases.append(dict(id='w%d' % k, path='wide/W%d.java' % k, data=mark + tail, origin='mutant'))
+                k += 1
     # minimal tokens inserted into / substituted in family files (a share of the mutant budget)
     k = 0
     for src in fam[:max(1, n_mut // 150)] if n_mut else []:
@@ -347,7 +363,22 @@ def disk_locations(cases, workdir, harness):
     p = subprocess.run([harness, 'init-dump', root, out], capture_output=True, timeout=1800, env=dict(os.environ, HOME=workdir))
     stats, bad = Counter(files=len(written)), []
     if p.returncode != 0:
-        return stats, [dict(what='graph.Initialize on the written files failed: rc=%d %s' % (p.returncode, p.stderr.decode(errors='replace')[-300:]))]
+        # which file is it?  each written file is scanned alone (its directory holds nothing else); the first that
+        # fails alone is the replay, otherwise the failure needs the whole set and is reported as such
+        msg = 'rc=%d %s' % (p.returncode, p.stderr.decode(errors='replace')[-300:])
+        for fp, c in written.items():
+            d = os.path.dirname(fp.decode('utf-8', 'surrogateescape'))
+            others = [x for x in written if x != fp and os.path.dirname(x.decode('utf-8', 'surrogateescape')).startswith(d)]
+            if others:
+                continue
+            try:
+                q = subprocess.run([harness, 'init-dump', d, out + '.one'], capture_output=True, timeout=120, env=dict(os.environ, HOME=workdir))
+                rc1, err1 = q.returncode, q.stderr.decode(errors='replace')[-300:]
+            except subprocess.TimeoutExpired:
+                rc1, err1 = 124, 'no answer within 120 s'
+            if rc1 != 0:
+                return stats, [dict(what='graph.Initialize fails on a directory holding just this file', case=c, detail=['rc=%d %s' % (rc1, err1)])]
+        return stats, [dict(what='graph.Initialize on the written files failed (no single file fails alone): ' + msg)]
     by_file = {}
     for line in open(out):
         if line.startswith('NODE '):
